@@ -110,6 +110,9 @@ def code_spec_py(op, codes, m=8):
 
 
 def replay(data):
+    if data['form'] == 'bigbp':
+        r = common.Report(); big_bp(r)
+        return bool(r.violations), r.violations[0]['what'] if r.violations else 'ok'
     if data['form'] == 'bp':
         op, m, k, shape = data['op'], data['m'], data['k'], tuple(data['shape'])
         fn = getattr(logic, f'bp{m}v_{op}')
@@ -145,8 +148,9 @@ def run_mv_real(data, arrs):
     op, api, outmode = data['op'], data['api'], data['outmode']
     shp = np.broadcast(*arrs).shape
     if api == 'public':
-        if outmode == 'given':
+        if outmode in ('given', 'strided'):
             out = np.full(shp, 0, dtype=np.uint8) if data.get('outinit', 0) == 0 else np.full(shp, 5, dtype=np.uint8)
+            if outmode == 'strided': out = np.full(shp[:-1] + (2 * shp[-1],), 5, dtype=np.uint8)[..., ::2]          # a non-contiguous view into a larger buffer
             r = MV_PUBLIC[op](*arrs, out=out)
             return out, r is out, r
         r = MV_PUBLIC[op](*arrs)
@@ -200,8 +204,10 @@ def mv_case(case):
         logic.np = NPShim()
         try:
             if api == 'public':
-                if outmode == 'given':
+                if outmode in ('given', 'strided'):
                     out = np.empty(shp, dtype=object); out[...] = 0
+                    if outmode == 'strided':
+                        buf = np.empty(shp[:-1] + (2 * shp[-1],), dtype=object); buf[...] = 5; out = buf[..., ::2]
                     r = MV_PUBLIC[op](*arrs, out=out)
                     delivered = r is out
                 else:
@@ -267,7 +273,7 @@ def mv_case(case):
     rep.counts['queries_engine'] += eng.nchecks
     rep.solver_s += eng.tsolve
     for data, what in bad_data[:1]:
-        key = 'out-argument' if ('raised ValueError' in what or 'out array' in what) and outmode == 'given' else f'mv_{op}/{api}'
+        key = 'out-argument' if ('raised ValueError' in what or 'out array' in what) and outmode in ('given', 'strided') else f'mv_{op}/{api}'
         rep.violation(key, what, data)
     if not bad_data and eng.complete:
         rep.sample({'form': f'mv_{op}', 'api': api, 'shapes': [list(s) for s in shapes], 'out': outmode, 'paths': eng.npaths, 'verdict': 'all paths valid'})
@@ -336,6 +342,26 @@ def demorgan_case(case):
     return rep
 
 
+def big_bp(rep):
+    """beyond the symbolic bound: bit-parallel operators on arrays with more than 2^16 bytes per plane against the same operators on the
+    array split into small pieces (lanes are independent) - concrete, stated as such"""
+    rng = np.random.default_rng(7)
+    nb = 65536 + 24
+    for m in (4, 8):
+        for op, k in (('and', 3), ('or', 2), ('xor', 2), ('not', 1)):
+            ins = [rng.integers(0, 256, (3, nb), dtype=np.uint8) for _ in range(k)]
+            fn = getattr(logic, f'bp{m}v_{op}')
+            out = np.zeros((3, nb), dtype=np.uint8); fn(out, *ins)
+            ref = np.zeros((3, nb), dtype=np.uint8)
+            for a in range(0, nb, 4096):
+                piece = np.zeros((3, min(4096, nb - a)), dtype=np.uint8); fn(piece, *[x[:, a:a + 4096].copy() for x in ins]); ref[:, a:a + piece.shape[1]] = piece
+            pl = 3 if m == 8 else 2
+            rep.counts['concolic_runs'] += 1
+            if not np.array_equal(out[:pl], ref[:pl]):
+                b = int(np.flatnonzero((out[:pl] != ref[:pl]).any(axis=0))[0])
+                rep.violation(f'bp{m}v_{op}/large', f'bp{m}v_{op} on {nb} bytes per plane differs from the same operator applied piecewise (first differing byte {b})', {'form': 'bigbp', 'm': m, 'op': op, 'k': k})
+
+
 def dispatch(job):
     kind, case = job
     return {'bp': bp_case, 'mv': mv_case, 'dm': demorgan_case}[kind](case)
@@ -366,6 +392,8 @@ def jobs(tier):
         for outmode in ('none', 'given'):
             J.append(('mv', ('not', 'public', shp, outmode)))
     J.append(('mv', ('not', 'inner', ((2,),), 'given')))
+    for shp in [((3,),), ((2, 2),)]: J.append(('mv', ('not', 'public', shp, 'strided')))
+    for op in ('and', 'or', 'xor'): J.append(('mv', (op, 'public', ((2,), (2,)), 'strided')))
     J += [('dm', 'bp'), ('dm', 'mv')]
     return J
 
@@ -373,6 +401,7 @@ def jobs(tier):
 def run(tier, seed):
     J = jobs(tier)
     rep = common.pmap(dispatch, sorted(J, key=lambda j: -(sum(int(np.prod(s)) for s in j[1][2]) if j[0] == 'mv' else 0)), chunksize=1)
+    big_bp(rep)
     # reachability twin: a wrong spec must be refuted
     q = lanes.Q(rep)
     a = z3.BitVec('a', 8)
